@@ -169,7 +169,7 @@ def monitor_case(c, ilog, verdict):
     fam = c["cfg"][0]
     name = FAM_NAME.get(fam, "?") + (" + elimination" if c["cfg"][2] else "")
     if verdict != "OK":
-        bad.append(("history of push/pop on %s is not linearizable to a LIFO stack (verified lincheck: %s)" % (name, verdict), {"history": h}))
+        bad.append(("notlin", "history of push/pop on %s is not linearizable to a LIFO stack (verified lincheck: %s)" % (name, verdict), {"history": h}))
     drained = None; disp = 0
     for x in ilog["extra"]:
         if x.startswith("monitor drained"):
@@ -177,15 +177,62 @@ def monitor_case(c, ilog, verdict):
         elif x.startswith("monitor disposed_read"):
             disp = int(x.split()[-1])
     if disp:
-        bad.append(("a popped intrusive item was read after its disposer ran (%s)" % name, {"history": h}))
+        bad.append(("disposed", "a popped intrusive item was read after its disposer ran (%s)" % name, {"history": h}))
     if len(set(popped)) != len(popped):
-        bad.append(("a pushed item was delivered to more than one popper (%s)" % name, {"history": h, "popped": popped}))
+        bad.append(("dup", "a pushed item was delivered to more than one popper (%s)" % name, {"history": h, "popped": popped}))
     if ilog["end"] == "finished" and drained is not None:
         # pending pushes cannot exist in a finished run
         if sorted(pushed) != sorted(popped + drained):
-            bad.append(("items lost or invented: pushed != popped + left in the stack (%s)" % name,
+            bad.append(("conservation", "items lost or invented: pushed != popped + left in the stack (%s)" % name,
                         {"history": h, "pushed": pushed, "popped": popped, "drained": drained}))
     return bad
+
+
+def run_one(ctx, lin, impl, c):
+    """one case on the real code -> (impl log or None, verdict)"""
+    cf = os.path.join(ctx.work, "min.txt")
+    conc_check.write_cases(cf, [c])
+    rc, raw = vcheck.sh([impl, cf], timeout=120)
+    i = conc_check.parse_logs(raw).get(c["id"])
+    if i is None or rc != 0 or i["end"] is None:
+        return None, "CRASH"
+    return i, lincheck_batch(ctx, lin, [history_of(i["lines"])[0]], "min")[0]
+
+
+def minimise(ctx, lin, impl, c, tag, budget=60):
+    """greedy: shorten the schedule, drop trailing operations and whole threads while the same kind of failure remains"""
+    def fails(x):
+        i, v = run_one(ctx, lin, impl, x)
+        if i is None:
+            return None
+        return (i, v) if any(t == tag for t, _, _ in monitor_case(x, i, v)) else None
+    best = c; bi = None; bv = None; n = 0
+    changed = True
+    while changed and n < budget:
+        changed = False
+        cands = []
+        L = len(best["sched"])
+        for cut in (L // 2, (3 * L) // 4, L - 1):
+            if 0 <= cut < L:
+                cands.append(dict(best, sched=best["sched"][:cut]))
+        for t in range(len(best["threads"])):
+            if len(best["threads"][t]) > 1:
+                th = [list(x) for x in best["threads"]]; th[t] = th[t][:-1]
+                cands.append(dict(best, threads=th))
+        if len(best["threads"]) > 2 and not best["cfg"][5]:
+            th = best["threads"][:-1]
+            cands.append(dict(best, threads=th, sched=[x for x in best["sched"] if x < len(th)]))
+        for x in cands:
+            n += 1
+            r = fails(x)
+            if r is not None:
+                best = x; bi, bv = r; changed = True
+                break
+            if n >= budget:
+                break
+    if best is c:
+        return c, None, None
+    return best, bi, bv
 
 
 def nontrivial(lines):
@@ -197,26 +244,45 @@ def nontrivial(lines):
 
 def run_batch(ctx, lin, impl, cases, tag, model=None):
     """runs the cases on the real code (and on the model when given); returns stats and reports monitor hits"""
+    cf = os.path.join(ctx.work, tag + ".txt")
+    conc_check.write_cases(cf, cases)
+    mlog = {}
     if model is not None:
-        rc1, mlog, rc2, ilog, raw = conc_check.run_both(ctx, model, impl, cases, tag=tag, fuel=20000)
-    else:
-        cf = os.path.join(ctx.work, tag + ".txt")
-        conc_check.write_cases(cf, cases)
-        rc2, raw = vcheck.sh([impl, cf], timeout=900)
-        ilog = conc_check.parse_logs(raw); mlog = {}
+        rc1, out1 = vcheck.sh("%s %d < %s" % (model, 20000, cf), timeout=900)
+        mlog = conc_check.parse_logs(out1)
+    # the real code; after a crash (double free, ...) the remaining cases are run in a fresh process
+    ilog = {}; crashes = []; todo = list(cases)
+    for attempt in range(12):
+        if not todo:
+            break
+        cfi = os.path.join(ctx.work, tag + ".impl.txt")
+        conc_check.write_cases(cfi, todo)
+        rc2, raw = vcheck.sh([impl, cfi], timeout=900)
+        part = conc_check.parse_logs(raw)
+        done = [c for c in todo if c["id"] in part and part[c["id"]]["end"] is not None]
+        for c in done:
+            ilog[c["id"]] = part[c["id"]]
+        if rc2 == 0:
+            break
+        rest = [c for c in todo if c["id"] not in ilog]
+        if not rest:
+            break
+        crashes.append((rc2, rest[0], raw[-400:]))
+        todo = rest[1:]
     ctx.log("batch %s: %d cases%s" % (tag, len(cases), " (step-compared)" if model is not None else ""))
     st = {"n": len(cases), "diverged": 0, "first_div": None, "monitor_hits": 0, "steps": 0, "shapes": set(), "nontrivial": set(),
           "verdicts": {}, "overrun": 0, "elim_hits": 0, "ops": {"push": 0, "pop_some": 0, "pop_none": 0}}
-    if rc2 != 0:
+    for rc, culprit, tail in crashes:
         # the real code crashed (double free, assertion, ...) or hung: the case being run is a concrete failing input
-        culprit = next((c for c in cases if c["id"] not in ilog or ilog[c["id"]]["end"] is None), cases[-1])
         st["monitor_hits"] += 1
-        part = ilog.get(culprit["id"], {"lines": []})["lines"]
-        ctx.violation("the real stack crashed or hung under the scheduler (harness exit status %d) on %s%s" % (rc2, FAM_NAME.get(culprit["cfg"][0], "?"), " + elimination" if culprit["cfg"][2] else ""),
-                      {"case": culprit, "impl_log": part, "history": history_of(part)[0], "harness_tail": raw[-600:]})
+        ctx.violation("the real stack crashed or hung under the scheduler (harness exit status %d) on %s%s" % (rc, FAM_NAME.get(culprit["cfg"][0], "?"), " + elimination" if culprit["cfg"][2] else ""),
+                      {"case": culprit, "harness_tail": tail})
+    crashed_ids = set(c["id"] for _, c, _ in crashes)
     hists = []; have = []
     for c in cases:
         i = ilog.get(c["id"])
+        if c["id"] in crashed_ids:
+            continue
         if i is None or i["end"] == "badcfg":
             st["diverged"] += 1
             st["first_div"] = st["first_div"] or (c, {"index": -1, "model": "?", "impl": "<no output from the harness>", "prefix": []})
@@ -245,9 +311,17 @@ def run_batch(ctx, lin, impl, cases, tag, model=None):
             if " ev ret_push" in l: st["ops"]["push"] += 1
             elif " ev ret_pop 1" in l: st["ops"]["pop_some"] += 1
             elif " ev ret_pop 0" in l: st["ops"]["pop_none"] += 1
-        for what, det in monitor_case(c, i, v):
+        for tag, what, det in monitor_case(c, i, v):
             st["monitor_hits"] += 1
-            det = dict(det); det.update({"case": c, "impl_log": i["lines"], "replay_cmd": "bin/check C09 --replay <this file>"})
+            cm, im = c, i
+            if getattr(ctx, "what_count", {}).get(what, 0) == 0 and not getattr(ctx, "no_minimise", False):
+                c2, i2, v2 = minimise(ctx, lin, impl, c, tag)
+                if c2 is not c:
+                    for tag2, what2, det2 in monitor_case(c2, i2, v2):
+                        if tag2 == tag:
+                            det = dict(det2); det["minimised_from"] = c; cm, im = c2, i2
+                            break
+            det = dict(det); det.update({"case": cm, "impl_log": im["lines"], "replay_cmd": "bin/check C09 --replay <this file>"})
             ctx.violation(what, det)
         if model is not None:
             m = mlog.get(c["id"])
